@@ -408,7 +408,7 @@ def lexValue (l : L) : L × Next :=
 
 /-- body of a `#` comment: up to and including the newline, or to the end of the input -/
 def hashLoop : Nat → L → Option Nat → L × Option Nat
-  | 0, l, r => (l, r)
+  | 0, l, _ => (l, none)     -- out of fuel (cannot happen: the fuel exceeds the input length): as at the end of input
   | fuel+1, l, r => if r != some 10 && r != none then hashLoop fuel (l.next).1 (l.next).2 else (l, r)
 
 /-- body of a block comment up to the `*` of the closing `*/`; `none` = unterminated -/
